@@ -1,6 +1,7 @@
 import CalVerif.Prim.Res
 /-! Model of the compound-file reader `/repo/src/cfb.rs` (after the fixes D25, D29 and the follow-ups:
-    total `to_u32`, names without BOM sniffing, chains and FAT bounded by the file length):
+    total `to_u32`, names without BOM sniffing, whole DIFAT sectors, chains / DIFAT walk / FAT bounded by the bytes
+    actually read — not by the caller's `len`, which is a capacity hint only):
     `Header::from_reader`, the DIFAT loop and the FAT loading of `Cfb::new`, `Sectors::get`,
     `Sectors::get_chain`, `Directory::from_slice`, `Cfb::new`, `Cfb::has_directory`, `Cfb::get_stream`.
 
@@ -91,8 +92,6 @@ def Header.fromReader (rd : Bytes) : Res (Header × List Nat × Bytes) :=
 structure Sectors where
   data : Bytes
   size : Nat
-  /-- length of the file (`len` given to `Cfb::new`): no chain may yield more bytes -/
-  limit : Nat
   deriving Repr, DecidableEq
 
 /-- `Sectors::get` (EOF-safe version): read from `rd` what is missing up to the end of sector `id`
@@ -107,7 +106,8 @@ def Sectors.get (s : Sectors) (id : Nat) (rd : Bytes) : Bytes × Sectors × Byte
   ((data.drop (min start len)).take (min end_ len - min start len), { s with data := data }, rd')
 
 /-- the `while sector_id != ENDOFCHAIN` loop of `get_chain`, bounded by `remaining` (= `fats.len()`);
-    `acc` is `chain.len()`: a chain that grows beyond the file length is an error (cyclic or corrupt) -/
+    `acc` is `chain.len()`: a chain that grows beyond what has been read of the file (`data.len()` after the
+    sector read) is an error (cyclic or corrupt): the sectors of a chain are distinct parts of `data` -/
 def Sectors.chainLoop (fats : List Nat) :
     (remaining : Nat) → (id : Nat) → Sectors → Bytes → (acc : Nat) → Res (Bytes × Sectors × Bytes)
   | 0, id, s, rd, _ => if id = ENDOFCHAIN then .ok ([], s, rd) else .err "io"
@@ -117,7 +117,7 @@ def Sectors.chainLoop (fats : List Nat) :
     | none => .err "io"
     | some next =>
       let r := s.get id rd
-      if acc + r.1.length > s.limit then .err "io"
+      if acc + r.1.length > r.2.1.data.length then .err "io"
       else
         match chainLoop fats rem next r.2.1 r.2.2 (acc + r.1.length) with
         | .ok (rest, s', rd') => .ok (r.1 ++ rest, s', rd')
@@ -206,40 +206,46 @@ structure CfbSt where
   miniFats : List Nat
   deriving Repr, DecidableEq
 
-/-- the DIFAT loop of `Cfb::new` (bounded by `remaining = len / sector_size + 1`): every DIFAT
-    sector is appended to the list, its last entry is the id of the next DIFAT sector -/
-def difatLoop : (remaining : Nat) → (id : Nat) → List Nat → Sectors → Bytes → Res (List Nat × Sectors × Bytes)
-  | 0, id, difat, s, rd => if id < RESERVED then .err "io" else .ok (difat, s, rd)
-  | rem + 1, id, difat, s, rd =>
+/-- the DIFAT loop of `Cfb::new`: every DIFAT sector (a whole sector: one cut by EOF is an error) is appended
+    to the list, its last entry is the id of the next DIFAT sector. `count` DIFAT sectors visited need
+    `count * size` bytes of what has been read (`data.len()`): more visits mean a cycle. That bounds the loop by
+    the file length; `fuel` only makes the recursion structural (`file.length + 1` suffices, see `new_terminates`). -/
+def difatLoop : (fuel : Nat) → (id : Nat) → List Nat → Sectors → Bytes → (count : Nat) →
+    Res (List Nat × Sectors × Bytes)
+  | 0, id, difat, s, rd, _ => if id < RESERVED then .outOfFuel else .ok (difat, s, rd)
+  | fuel + 1, id, difat, s, rd, count =>
     if id < RESERVED then
       let r := s.get id rd
-      if r.1 = [] ∨ r.1.length % 4 ≠ 0 then .err "io"
+      if r.1.length ≠ s.size then .err "io"
       else
         let d := difat ++ u32s r.1
-        difatLoop rem (d.getLastD 0) d.dropLast r.2.1 r.2.2
+        if (count + 1) * s.size > r.2.1.data.length then .err "io"
+        else difatLoop fuel (d.getLastD 0) d.dropLast r.2.1 r.2.2 (count + 1)
     else .ok (difat, s, rd)
 
-/-- `for id in difat.filter(|id| *id < DIFSECT) { fats.extend(to_u32(sectors.get(id)?)); if fats.len() > len / 4 {Err} }`
-    (`to_u32` ignores a partial trailing item; `lim` is `len / 4`, `acc` is `fats.len()`) -/
-def loadFats : List Nat → Sectors → Bytes → (lim acc : Nat) → Res (List Nat × Sectors × Bytes)
-  | [], s, rd, _, _ => .ok ([], s, rd)
-  | id :: ids, s, rd, lim, acc =>
+/-- `for id in difat.filter(|id| *id < DIFSECT) { fats.extend(to_u32(sectors.get(id)?)); if fats.len() * 4 > data.len() {Err} }`
+    (`to_u32` ignores a partial trailing item; `acc` is `fats.len()`): the table is made of distinct sectors of the
+    file, it cannot be larger than what has been read -/
+def loadFats : List Nat → Sectors → Bytes → (acc : Nat) → Res (List Nat × Sectors × Bytes)
+  | [], s, rd, _ => .ok ([], s, rd)
+  | id :: ids, s, rd, acc =>
     if id < DIFSECT then
       let r := s.get id rd
-      if acc + (u32s r.1).length > lim then .err "io"
+      if (acc + (u32s r.1).length) * 4 > r.2.1.data.length then .err "io"
       else
-        match loadFats ids r.2.1 r.2.2 lim (acc + (u32s r.1).length) with
+        match loadFats ids r.2.1 r.2.2 (acc + (u32s r.1).length) with
         | .ok (rest, s', rd') => .ok (u32s r.1 ++ rest, s', rd')
         | .err e => .err e
         | .panic e => .panic e
         | .outOfFuel => .outOfFuel
-    else loadFats ids s rd lim acc
+    else loadFats ids s rd acc
 
-/-- `Cfb::new(reader, len)`; `file` is everything the reader yields -/
-def new (file : Bytes) (len : Nat) : Res (CfbSt × Bytes) := do
+/-- `Cfb::new(reader, len)`; `file` is everything the reader yields; `len` is only a capacity hint
+    (clamped to 16 MiB): nothing depends on it -/
+def new (file : Bytes) (_len : Nat) : Res (CfbSt × Bytes) := do
   let (h, difat0, rd) ← Header.fromReader file
-  let (difat, s1, rd1) ← difatLoop (len / h.sectorSize + 1) h.difatStart difat0 ⟨[], h.sectorSize, len⟩ rd
-  let (fats, s2, rd2) ← loadFats difat s1 rd1 (len / 4) 0
+  let (difat, s1, rd1) ← difatLoop (file.length + 1) h.difatStart difat0 ⟨[], h.sectorSize⟩ rd 0
+  let (fats, s2, rd2) ← loadFats difat s1 rd1 0
   let (dirBytes, s3, rd3) ← s2.getChain h.dirStart fats rd2 (h.dirLen * h.sectorSize)
   let dirs ← parseDirs h.sectorSize (chunksExact 128 dirBytes)
   match dirs with
@@ -248,8 +254,8 @@ def new (file : Bytes) (len : Nat) : Res (CfbSt × Bytes) := do
     if h.miniFatLen > 0 then do
       let (ministream, s4, rd4) ← s3.getChain root.start fats rd3 root.len
       let (mf, s5, rd5) ← s4.getChain h.miniFatStart fats rd4 (h.miniFatLen * h.sectorSize)
-      .ok (⟨dirs, s5, fats, ⟨ministream, 64, len⟩, u32s mf⟩, rd5)
-    else .ok (⟨dirs, s3, fats, ⟨[], 64, len⟩, []⟩, rd3)
+      .ok (⟨dirs, s5, fats, ⟨ministream, 64⟩, u32s mf⟩, rd5)
+    else .ok (⟨dirs, s3, fats, ⟨[], 64⟩, []⟩, rd3)
 
 /-- `Cfb::has_directory` -/
 def hasDirectory (c : CfbSt) (name : List Char) : Bool := c.dirs.any (fun d => d.name = name)
